@@ -60,6 +60,12 @@ pub struct GenCfg {
 }
 
 impl GenCfg {
+    /// Deeper variant for the thorough tier: four times the steps, three times the operations.
+    pub fn deepen(&mut self) {
+        self.steps *= 4;
+        self.max_ops = (self.max_ops * 3).min(40);
+    }
+
     /// Conformant operations profile with per-run variation.
     pub fn conformant(rng: &mut Rng) -> GenCfg {
         let read_style = *rng.pick(&[ReadStyle::Whole, ReadStyle::Whole, ReadStyle::Bytes1, ReadStyle::Small, ReadStyle::Mixed]);
@@ -119,6 +125,7 @@ impl GenCfg {
         c.max_ops = rng.urange(2, 8);
         c.inbound_unknown_ids = rng.chance(1, 2);
         c.inbound_absent_ids = rng.chance(1, 2);
+        c.inbound_multi_ids = rng.chance(1, 3);
         c.drop_streams = rng.chance(1, 3);
         c.receive_max = None;
         c
@@ -232,11 +239,26 @@ impl<'a> Gen<'a> {
         ConnectSpec { client_id: Some("sim".into()), session_expiry: self.cfg.session_expiry, ..Default::default() }
     }
 
-    /// Start, CONNACK, settle: the client is serving afterwards.
+    /// Start, CONNACK, settle: the client is serving afterwards. One run in eight gets there
+    /// through an extended authentication exchange (the CONNACK is then received by
+    /// `authorize()`, which has its own copy of the CONNACK handling).
     pub fn preamble(&mut self) {
-        let connect = self.connect_spec();
-        self.push(Step::Start { connect, auths: vec![] });
+        let mut connect = self.connect_spec();
+        let rounds = if self.rng.chance(1, 8) { self.rng.urange(1, 2) } else { 0 };
+        let mut auths = vec![];
+        if rounds > 0 {
+            connect.auth_method = Some("SIM".into());
+            connect.auth_data = Some(vec![0]);
+            auths = (0..rounds).map(|i| AuthSpec { reason: Some(0x18), method: Some("SIM".into()), data: Some(vec![i as u8]), user: vec![] }).collect();
+        }
+        self.push(Step::Start { connect, auths });
         self.settle();
+        for i in 0..rounds {
+            let props = Props::new().with(pid::AUTH_METHOD, PropVal::Str("SIM".into())).with(pid::AUTH_DATA, PropVal::Bin(vec![100 + i as u8]));
+            let chunks = self.chunks(12);
+            self.push(Step::Broker { pkt: BrokerPkt::Auth { reason: 0x18, props, form: Form::Full }, chunks, hold: false });
+            self.settle();
+        }
         let props = self.connack_props();
         let chunks = self.chunks(8);
         self.push(Step::Broker { pkt: BrokerPkt::Connack { session_present: false, reason: 0, props }, chunks, hold: false });
@@ -453,7 +475,14 @@ impl<'a> Gen<'a> {
                 props.push(pid::USER_PROPERTY, PropVal::Pair("n".into(), format!("{n}")));
             }
         }
-        let plen = if self.cfg.big_payloads && self.rng.chance(1, 4) { self.rng.urange(480, 1100) } else { self.rng.urange(0, 10) };
+        let plen = if self.cfg.rich && self.rng.chance(1, 400) {
+            // remaining length of 3 or 4 bytes
+            *self.rng.pick(&[16_400usize, 70_000, 2_097_152, 2_100_000])
+        } else if self.cfg.big_payloads && self.rng.chance(1, 4) {
+            self.rng.urange(480, 1100)
+        } else {
+            self.rng.urange(0, 10)
+        };
         let mut payload = format!("m{n}:").into_bytes();
         payload.extend(self.rng.bytes(plen));
         if qos == 2 {
@@ -461,6 +490,13 @@ impl<'a> Gen<'a> {
         }
         self.inbound_count += 1;
         let retain = self.rng.chance(1, 5);
+        if plen > 10_000 {
+            // huge packets are delivered in large reads only (a 2 MiB packet in 1-byte chunks
+            // would cost seconds per run)
+            let chunks = if self.rng.coin() { Chunks::Whole } else { Chunks::Each(65_536) };
+            self.push(Step::Broker { pkt: BrokerPkt::Publish { subs, qos, id, dup, retain, topic: format!("in/{n}"), payload, props }, chunks, hold: false });
+            return;
+        }
         self.broker(BrokerPkt::Publish { subs, qos, id, dup, retain, topic: format!("in/{n}"), payload, props });
     }
 
